@@ -22,6 +22,7 @@ import (
 	"sort"
 	"sync"
 	"testing"
+	"time"
 
 	"verif/checks/c25/balenum"
 )
@@ -280,6 +281,7 @@ func TestVerifC25(t *testing.T) {
 		f, _ := os.Create(pp)
 		pprof.StartCPUProfile(f)
 	}
+	t0 := time.Now()
 	thorough := os.Getenv("VERIF_TIER") == "thorough"
 	blocks, bound := c25Blocks(thorough)
 	balenum.TuneGC(256 << 20)
@@ -382,6 +384,7 @@ func TestVerifC25(t *testing.T) {
 		"bound":        bound,
 		"samples":      samples,
 		"findings":     findings,
+		"wall_s":       time.Since(t0).Seconds(),
 		"extra":        map[string]int64{"cases_with_member_on_static_leave": awayCases, "uniform_cases_where_target_changed": movedCases},
 	}
 	js, _ := json.Marshal(sum)
